@@ -1184,7 +1184,7 @@ class Harness:
             # the exact content is not predicted: live loads of saved files adopt what they observe,
             # the round trip itself is judged by load_fresh against `musts`
             self.filemodel[path] = {"exact": None, "clean": was_clean, "musts": musts if was_clean else None,
-                                    "torn": was_torn and not defaults}
+                                    "torn": was_torn}  # (whether this save succeeded depended on the torn bytes)
             if not was_torn:
                 self.log.append(("saved", path, len(self.fs.files.get(path, b""))))
         else:
